@@ -3,11 +3,13 @@
     Full statement of the property's second sentence:
       for every smooth velocity field the end point of a trajectory computed with EF / RK2 / RK4
       converges to the exact flow map with order 1 / 2 / 4 when the time step is refined.
-    Status: PROVED for Euler forward (T7, C01_EF_converges_general: every field Lipschitz in space, every
-    twice differentiable solution, explicit constant, scalar case); for RK2 and RK4 the stability half
-    (Lipschitz increment functions with explicit constants) and the Lax-type convergence theorem are proved,
-    and orders 2 and 4 follow from ONE remaining hypothesis, the local truncation bound C h^(p+1) of the scheme
-    along the exact solution (C01_RK_converges_general_partial).  That bound needs Butcher's theorem (order
+    Status: PROVED for Euler forward (T7, C01_EF_converges_general, and in two dimensions
+    C01_EF_converges_general_2d: every field Lipschitz in space, every twice differentiable solution, explicit
+    constant) and for RK2 (T8, C01_RK2_converges_general: every time-dependent scalar field with bounded partial
+    derivatives up to order two; the local truncation bound is derived).  For RK4 the stability half (Lipschitz
+    increment function with explicit constant, also in 2-D) and the Lax-type convergence theorem are proved, and
+    order 4 follows from ONE remaining hypothesis, the local truncation bound C h^5 of the scheme along the exact
+    solution (C01_RK_converges_general_partial).  That bound needs Butcher's theorem (order
     conditions => local error O(h^(p+1)) for arbitrary C^(p+1) fields), which is not available in the installed
     libraries; it is proved here for linear fields and for pure time quadrature.
     What is proved: T1 the step IS the Runge-Kutta step of the scheme's Butcher tableau with the stage
@@ -261,3 +263,90 @@ Theorem C01_model_EF_converges_general : forall (vel : Q -> Q -> Q -> Q * Q) (dt
   (Rabs (Q2R (fst (rk_iter vel dtdx dtdy tab_EF n x0 y0)) - y (t0 + T)) <= exp (T * L) * T * (M / 2) * Q2R dtdx)%R.
 Proof. exact model_EF_converges_order1. Qed.
 Print Assumptions C01_model_EF_converges_general.
+
+(** * T8 — RK2 (explicit midpoint) COMPLETE for smooth fields, and the two-dimensional versions of T7
+    (Proofs/RK2TruncationProofs.v, Proofs/GeneralConvergence2DProofs.v) *)
+From Ladim Require Import Proofs.RK2TruncationProofs Proofs.GeneralConvergence2DProofs.
+
+(** RK2, COMPLETE (scalar, time-dependent field): for every field with bounded partial derivatives up to the
+    second order and every solution y of y' = f(t, y) on [t0, t0+T], n midpoint steps of size h = T/n end within
+    exp(T * Lip_RK2 h Bx) * T * C * h^2 of y(t0+T), with the explicit constant C = C_RK2n(bounds).  The local
+    truncation bound C h^3 is DERIVED here (Taylor-Lagrange on y to second order and on f to first order); no
+    hypothesis on the scheme remains.  Non-vacuity: [C01_RK2_general_ex], f t x = 1 + sin (x - t). *)
+Theorem C01_RK2_converges_general : forall (f ft fx ftt ftx fxt fxx : R -> R -> R) (B0 Bt Bx Btt Btx Bxt Bxx : R),
+  (forall t x : R, differentiable_pt_lim f t x (ft t x) (fx t x)) ->
+  (forall t x : R, differentiable_pt_lim ft t x (ftt t x) (ftx t x)) ->
+  (forall t x : R, differentiable_pt_lim fx t x (fxt t x) (fxx t x)) ->
+  (forall t x : R, Rabs (f t x) <= B0)%R -> (forall t x : R, Rabs (ft t x) <= Bt)%R ->
+  (forall t x : R, Rabs (fx t x) <= Bx)%R -> (forall t x : R, Rabs (ftt t x) <= Btt)%R ->
+  (forall t x : R, Rabs (ftx t x) <= Btx)%R -> (forall t x : R, Rabs (fxt t x) <= Bxt)%R ->
+  (forall t x : R, Rabs (fxx t x) <= Bxx)%R ->
+  forall (y : R -> R) (h t0 T : R) (n : nat), (0 < h)%R -> (INR n * h = T)%R ->
+  (forall t : R, (t0 <= t <= t0 + T)%R -> is_derive y t (f t (y t))) ->
+  (Rabs (one_step_iter (Phi_RK2 f h) h t0 n (y t0) - y (t0 + T)) <=
+   exp (T * Lip_RK2 h Bx) * T * C_RK2n B0 Bt Bx Btt Btx Bxt Bxx * h ^ 2)%R.
+Proof. exact RK2_nonautonomous_converges_order2. Qed.
+Print Assumptions C01_RK2_converges_general.
+Example C01_RK2_general_ex : forall (n : nat) (h T : R), (0 < h)%R -> (INR n * h = T)%R ->
+  (Rabs (one_step_iter (Phi_RK2 (fun t x : R => 1 + sin (x - t)) h) h 0 n (PI / 2) - (T + 2 * atan (exp T))) <=
+   exp (T * Lip_RK2 h 1) * T * (25 / 8) * h ^ 2)%R.
+Proof. exact RK2_shift_example. Qed.
+
+(** ... at the level of the rational MODEL (autonomous fields, for which one oracle serves all steps) *)
+Theorem C01_model_RK2_converges : forall (g : R -> R) (B0 B1 B2 : R),
+  (forall x : R, ex_derive g x) -> (forall x : R, ex_derive (Derive g) x) ->
+  (forall x : R, Rabs (g x) <= B0)%R -> (forall x : R, Rabs (Derive g x) <= B1)%R ->
+  (forall x : R, Rabs (Derive_n g 2 x) <= B2)%R ->
+  forall (vel : Q -> Q -> Q -> Q * Q) (dtdx dtdy x0 y0 : Q) (y : R -> R) (t0 T : R) (n : nat),
+  (0 < Q2R dtdx)%R -> (INR n * Q2R dtdx = T)%R ->
+  (forall s x y' : Q, Q2R (fst (vel s x y')) = g (Q2R x)) -> Q2R x0 = y t0 ->
+  (forall t : R, (t0 <= t <= t0 + T)%R -> is_derive y t (g (y t))) ->
+  (Rabs (Q2R (fst (rk_iter vel dtdx dtdy tab_RK2 n x0 y0)) - y (t0 + T)) <=
+   exp (T * Lip_RK2 (Q2R dtdx) B1) * T * C_RK2 B0 B1 B2 * Q2R dtdx ^ 2)%R.
+Proof. exact model_RK2_autonomous_converges_order2. Qed.
+Print Assumptions C01_model_RK2_converges.
+
+(** TWO space dimensions (the model's actual state), max-norm, separate metric factors hx = dt/dx, hy = dt/dy:
+    stability of the three increment functions, the Lax-type theorem, and Euler forward complete *)
+Theorem C01_general_stability_2d : forall (f : R -> pt -> pt) (hx hy ht L : R), (0 <= hx)%R -> (0 <= hy)%R -> (0 <= L)%R ->
+  (forall (t : R) (p q : pt), norm2 (psub (f t p) (f t q)) <= L * norm2 (psub p q))%R ->
+  forall (t : R) (p q : pt),
+    (norm2 (psub (Phi_RK2_2d f hx hy ht t p) (Phi_RK2_2d f hx hy ht t q)) <= Lip_RK2 (Rmax hx hy) L * norm2 (psub p q))%R /\
+    (norm2 (psub (Phi_RK4_2d f hx hy ht t p) (Phi_RK4_2d f hx hy ht t q)) <= Lip_RK4 (Rmax hx hy) L * norm2 (psub p q))%R.
+Proof.
+  intros f hx hy ht L Hx Hy HL Hf t p q.
+  exact (conj (Phi_RK2_2d_lipschitz f hx hy ht L Hx Hy HL Hf t p q) (Phi_RK4_2d_lipschitz f hx hy ht L Hx Hy HL Hf t p q)).
+Qed.
+Print Assumptions C01_general_stability_2d.
+Theorem C01_general_convergence_2d : forall (Phi : R -> pt -> pt) (hx hy ht Lam t0 : R) (y : R -> pt),
+  (0 < hx)%R -> (0 < hy)%R -> (0 <= Lam)%R ->
+  (forall (t : R) (p q : pt), norm2 (psub (Phi t p) (Phi t q)) <= Lam * norm2 (psub p q))%R ->
+  forall (n p : nat) (C T : R) (p0 : pt), (0 < ht)%R -> (0 <= C)%R -> p0 = y t0 -> (INR n * ht = T)%R ->
+  (forall k : nat, (k < n)%nat -> norm2 (local_err2 Phi hx hy ht t0 y k) <= C * ht ^ S p)%R ->
+  (norm2 (psub (one_step_iter2 Phi hx hy ht t0 n p0) (y (t0 + T))) <= exp (T * (Rmax hx hy / ht * Lam)) * T * C * ht ^ p)%R.
+Proof. exact generic_order_p_2d. Qed.
+Print Assumptions C01_general_convergence_2d.
+Theorem C01_EF_converges_general_2d : forall (f : R -> pt -> pt) (y : R -> pt) (hx hy ht L M t0 T : R) (n : nat),
+  (0 < hx)%R -> (0 < hy)%R -> (0 < ht)%R -> (0 <= L)%R -> (INR n * ht = T)%R ->
+  (forall (t : R) (p q : pt), norm2 (psub (f t p) (f t q)) <= L * norm2 (psub p q))%R ->
+  (forall t : R, (t0 <= t <= t0 + T)%R -> ex_derive (fun s : R => fst (y s)) t) ->
+  (forall t : R, (t0 <= t <= t0 + T)%R -> ex_derive (fun s : R => snd (y s)) t) ->
+  (forall t : R, (t0 <= t <= t0 + T)%R -> ex_derive (Derive (fun s : R => fst (y s))) t) ->
+  (forall t : R, (t0 <= t <= t0 + T)%R -> ex_derive (Derive (fun s : R => snd (y s))) t) ->
+  (forall t : R, (t0 <= t <= t0 + T)%R -> Derive (fun s : R => fst (y s)) t = (hx / ht * fst (f t (y t)))%R) ->
+  (forall t : R, (t0 <= t <= t0 + T)%R -> Derive (fun s : R => snd (y s)) t = (hy / ht * snd (f t (y t)))%R) ->
+  (forall t : R, (t0 <= t <= t0 + T)%R -> (Rabs (Derive_n (fun s : R => fst (y s)) 2 t) <= M)%R) ->
+  (forall t : R, (t0 <= t <= t0 + T)%R -> (Rabs (Derive_n (fun s : R => snd (y s)) 2 t) <= M)%R) ->
+  (norm2 (psub (one_step_iter2 (Phi_EF2 f) hx hy ht t0 n (y t0)) (y (t0 + T))) <=
+   exp (T * (Rmax hx hy / ht * L)) * T * (M / 2) * ht)%R.
+Proof. exact EF2_converges_order1. Qed.
+Print Assumptions C01_EF_converges_general_2d.
+(** the model's 2-D steps ARE these real 2-D steps (RK4 shown; EF and RK2 likewise in the proofs file) *)
+Theorem C01_model_step_is_real_step_2d : forall (vel : Q -> Q -> Q -> Q * Q) (dtdx dtdy : Q) (f : R -> pt -> pt) (tk ht : R),
+  (forall s x y : Q, Q2R (fst (vel s x y)) = fst (f (tk + Q2R s * ht)%R (Q2R x, Q2R y))) ->
+  (forall s x y : Q, Q2R (snd (vel s x y)) = snd (f (tk + Q2R s * ht)%R (Q2R x, Q2R y))) ->
+  forall x y : Q,
+  Q2R2 (rk_generic vel dtdx dtdy tab_RK4 x y) =
+  padd (Q2R x, Q2R y) (pscale2 (Q2R dtdx) (Q2R dtdy) (Phi_RK4_2d f (Q2R dtdx) (Q2R dtdy) ht tk (Q2R x, Q2R y))).
+Proof. exact model_RK4_step2. Qed.
+Print Assumptions C01_model_step_is_real_step_2d.
